@@ -358,3 +358,7 @@ package setec
 //@   at call do: assert [C09 clientgic.conditional-request] oldVersion != 0 && arg_req.Name == name && arg_req.Version == oldVersion && arg_req.UpdateIfChanged && arg_path == "/api/get"
 //@ func (Client).Get(c, ctx, name) (sv, err)
 //@   at call do: assert [C09 clientget.request] arg_req.Name == name && arg_req.Version == 0 && !arg_req.UpdateIfChanged && arg_path == "/api/get"
+
+//@ func (Client).Put(c, ctx, name, value) (version, err)
+//@   ensures [C18 clientput.one-request] httpCalls == old(httpCalls) || httpCalls == old(httpCalls) + 1
+//@   at call do: assert [C18 clientput.sends-exactly-the-value] arg_req.Name == name && bytes(arg_req.Value) == bytes(value) && arg_path == "/api/put"
